@@ -167,7 +167,10 @@ def run_parser(datadir, cb, dump=None, coin=None, start=None, end=None, verify=F
     for attempt in (0, 1):
         timed_out = False
         try:
-            r = subprocess.run(args, env=e, stdout=subprocess.PIPE, stderr=subprocess.PIPE, preexec_fn=pre, timeout=timeout)
+            # preexec_fn forces fork(); without it Python can use vfork/posix_spawn, which matters when the parent is large
+            need_pre = fsize is not None or nofile is not None or abort_at is not None
+            r = subprocess.run(args, env=e, stdout=subprocess.PIPE, stderr=subprocess.PIPE,
+                               preexec_fn=pre if need_pre else None, timeout=timeout)
             rc, out, err = r.returncode, r.stdout, r.stderr
             break
         except subprocess.TimeoutExpired as ex:
